@@ -17,6 +17,7 @@ pub mod c14;
 pub mod c15;
 pub mod c16;
 pub mod c17;
+pub mod c18;
 pub mod c19;
 pub mod offtrait;
 
@@ -38,6 +39,7 @@ pub fn dispatch(ctx: &mut Ctx) -> bool {
         "C15" => c15::run(ctx),
         "C16" => c16::run(ctx),
         "C17" => c17::run(ctx),
+        "C18" => c18::run(ctx),
         "C19" => c19::run(ctx),
         _ => return false,
     }
